@@ -270,7 +270,6 @@ package jsonrpc2
 //@ func decodeID [C19]
 //@   track strconv.ParseInt as pint
 //@   track MakeID as mk
-//@   modifies *
 //@   ensures @absent-id len(raw) == 0 ==> result.1 == nil && result.0.value == nil && calls(mk) == 0
 //@   ensures @integer-id-exact len(raw) != 0 ==> calls(pint) == 1
 //@   ensures @integer-id-exact-value calls(pint) == 1 && callResult(pint, 1, 1) == nil ==> result.1 == nil && typeIs(result.0.value, int64) && result.0.value.(int64) == callResult(pint, 1, 0) && calls(mk) == 0
@@ -278,7 +277,6 @@ package jsonrpc2
 
 //@ func DecodeMessage [C19]
 //@   track decodeID as mkid
-//@   modifies *
 //@   ensures @exactly-one-of result.0 == nil <==> result.1 != nil
 //@   ensures @id-error-propagates calls(mkid) == 1 && callResult(mkid, 1, 1) != nil ==> result.1 == callResult(mkid, 1, 1)
 //@   ensures @request-keeps-id result.1 == nil && typeIs(result.0, *Request) ==> calls(mkid) == 1 && result.0.(*Request).ID == callResult(mkid, 1, 0)
